@@ -183,7 +183,7 @@ func ifNud(p *parser, t *token) *token {
 	for {
 		first := p.Expression(0, "{")
 		if p.Token.Symbol == ";" {
-			t.Append(first)
+			t.Append(asStatement(first))
 			p.Advance(";")
 			t.Append(p.Expression(0, "{"))
 		} else {
@@ -215,7 +215,12 @@ func forNud(p *parser, t *token) *token {
 		return t
 	}
 
-	first := p.Expression(0, "{")
+	var first *token
+	if p.Token.Symbol == ";" { // three-clause form with an empty init statement
+		first = symAtPos(t.Pos, "~")
+	} else {
+		first = p.Expression(0, "{")
+	}
 	if first.Symbol == "range" {
 		tok := first
 		tok.Append(blankAtPos(t.Pos))
@@ -247,9 +252,17 @@ func forNud(p *parser, t *token) *token {
 
 	t.Append(asStatement(first))
 	p.Advance(";")
-	t.Append(p.Expression(0, "{"))
+	if p.Token.Symbol == ";" { // empty condition: loop forever
+		t.Append(symAtPos(t.Pos, "~"))
+	} else {
+		t.Append(p.Expression(0, "{"))
+	}
 	p.Advance(";")
-	t.Append(asStatement(p.Expression(0, "{")))
+	if p.Token.Symbol == "{" { // empty post statement
+		t.Append(symAtPos(t.Pos, "~"))
+	} else {
+		t.Append(asStatement(p.Expression(0, "{")))
+	}
 	t.Append(p.Block("block", "{", "}"))
 	return t
 }
